@@ -158,10 +158,12 @@ class Call2Mixin:
     old = self.snapshot(env)
     # exceptional behaviour
     for exc, cond in c.raises.items():
-      if self.branch(self.spec(cond, env)):
+      if self.spec_mode:        # a call inside a specification must not raise
+        self.oblige(f'{site}/does-not-raise[{exc}]', z3.Not(self.spec(cond, env)), 'call-precondition', {'text': f'not ({cond})'})
+      elif self.branch(self.spec(cond, env)):
         self.raise_(exc, VStr(f'{c.short} raises {exc}'))
     for exc in c.may_raise:
-      if self.branch(self.fresh_bool(f'{c.short}.raises.{exc}')):
+      if not self.spec_mode and self.branch(self.fresh_bool(f'{c.short}.raises.{exc}')):
         self.raise_(exc, VStr(f'{c.short} may raise {exc}'))
     # frame: havoc what the callee may modify
     for path in c.modifies:
@@ -169,10 +171,11 @@ class Call2Mixin:
     res = self.fresh(c.ret, f'{c.short}.result') if c.ret else NONE
     env2 = dict(env)
     env2['result'] = res
+    if c.post_hook is not None:       # binds parts of the fresh result to existing objects (identity)
+      res = c.post_hook(self, env2, old) or res
+      env2['result'] = res
     for e in c.ensures:
       self.assume(self.spec(e, env2, old))
-    if c.post_hook is not None:
-      res = c.post_hook(self, env2, old) or res
     return res
 
   def havoc_path(self, env, path):
@@ -270,6 +273,8 @@ class Call2Mixin:
       if post is not None:
         self.call_repo(mod, cls, post, [obj], {})
       obj.frozen = frozen
+      if schema is not None and schema.on_new is not None:
+        schema.on_new(self, obj)
       return obj
     m2, c2, init = self.world.method(name, '__init__')
     if init is not None:
